@@ -1,7 +1,39 @@
-(** C16 - no input makes the assembler panic, overflow its stack, or hang (examples; theorems follow). *)
+(** C16 - no input makes the assembler panic, overflow its stack, or hang.
+    PARTIAL BY NATURE.  The model keeps every partial operation of the code as an explicit [Panic]
+    outcome (index out of bounds, unwrap, overflow under overflow checks); the theorems below show
+    that these sites are guarded.  What no Gallina model can exhibit - the depth of the native stack,
+    wall-clock time, the allocator - is exercised by ./check C16 in isolated worker processes (three
+    deep-nesting inputs are open known findings).  Proofs: Proofs/TotalProofs.v. *)
 From Coq Require Import List ZArith NArith String.
 Import ListNotations.
-Require Import AvraV.Model.Base AvraV.Model.Ast AvraV.Model.Passes.
+Require Import AvraV.Model.Base AvraV.Model.Ast AvraV.Model.Eval AvraV.Model.Encode AvraV.Model.Parse AvraV.Model.Passes.
+Require Import AvraV.Proofs.TotalProofs.
+
+(** Expression evaluation never panics: division by zero, overflow, shift amounts, unknown
+    functions and symbols are all error values; cyclic definitions end at the depth limit. *)
+Theorem C16_eval_total : forall f c e, is_panic (run f c e) = false.
+Proof. exact run_np. Qed.
+Print Assumptions C16_eval_total.
+
+(** The encoder never panics: operands are fetched by position only after the operand count has
+    been checked - for every operation and every operand list (missing, surplus, wrong kind). *)
+Theorem C16_encoder_total : forall fuel c op args pc, is_panic (process fuel c op args pc) = false.
+Proof. exact process_np. Qed.
+Print Assumptions C16_encoder_total.
+
+(** Directives never panic, whatever their operand list (empty, wrong kind, too long). *)
+Theorem C16_directive_total : forall fuel inc d ops st line,
+  (forall p s, is_panic (inc p s) = false) -> is_panic (directive_parse fuel inc d ops st line) = false.
+Proof. exact directive_np. Qed.
+Print Assumptions C16_directive_total.
+
+(** Pass 1 never panics: a location counter that would leave the 32-bit address space is an error. *)
+Theorem C16_pass1_total : forall t st ci, is_panic (pass1_item t st ci) = false.
+Proof. exact pass1_item_np. Qed.
+Print Assumptions C16_pass1_total.
+
+(** Termination: every function of the model is total (structural recursion on explicit fuel);
+    cyclic symbol definitions and recursive macros end in an error at depth 64. *)
 Definition outcome (src : string) : N :=
   match build_str 300 (list_ascii_of_string src) with Ok _ => 0 | Err _ => 1 | Panic => 2 | OutOfFuel => 3 end%N.
 Definition nl := String (Ascii.ascii_of_N 10) EmptyString.
@@ -9,5 +41,6 @@ Example C16_examples :
   outcome ("mov r1" ++ nl) = 1%N /\ outcome (".org" ++ nl) = 1%N /\ outcome (".def a = b" ++ nl) = 1%N /\
   outcome (".equ x = y" ++ nl ++ ".equ y = x" ++ nl ++ ".dw x" ++ nl) = 1%N /\
   outcome (".macro m" ++ nl ++ "m" ++ nl ++ ".endm" ++ nl ++ "m" ++ nl) = 1%N /\
-  outcome (".dw 99999999999999999999" ++ nl) = 1%N /\ outcome ("ldi r32, 1" ++ nl) = 1%N.
+  outcome (".dw 99999999999999999999" ++ nl) = 1%N /\ outcome ("ldi r32, 1" ++ nl) = 1%N /\
+  outcome (".org 0xFFFFFFFF" ++ nl ++ "nop" ++ nl) = 1%N /\ outcome (".org 0x7fffffff" ++ nl ++ "nop" ++ nl) = 1%N.
 Proof. vm_compute. repeat split; reflexivity. Qed.
